@@ -249,7 +249,17 @@ class R:
         return R.const(0)
 
     # -- comparisons -----------------------------------------------------------
+    @staticmethod
+    def _inf(x):
+        """+1 / -1 for a float infinity, else 0 (symbolic reals are finite)."""
+        if isinstance(x, (float, np.floating)) and math.isinf(x):
+            return 1 if x > 0 else -1
+        return 0
+
     def _cmp(self, other, op):
+        i = R._inf(other)
+        if i:
+            return i > 0
         o = R.lift(other)
         if o is None:
             return NotImplemented
@@ -262,24 +272,34 @@ class R:
         return self._cmp(other, "<=")
 
     def __gt__(self, other):
+        i = R._inf(other)
+        if i:
+            return i < 0
         o = R.lift(other)
         if o is None:
             return NotImplemented
         return compare("<", o, self)
 
     def __ge__(self, other):
+        i = R._inf(other)
+        if i:
+            return i < 0
         o = R.lift(other)
         if o is None:
             return NotImplemented
         return compare("<=", o, self)
 
     def __eq__(self, other):
+        if R._inf(other):
+            return False
         o = R.lift(other)
         if o is None:
             return False
         return compare("==", self, o)
 
     def __ne__(self, other):
+        if R._inf(other):
+            return True
         o = R.lift(other)
         if o is None:
             return True
@@ -315,6 +335,9 @@ class R:
         raise OutOfReach("round() of symbolic value")
 
     def __repr__(self):
+        return show(self)
+
+    def __format__(self, spec):
         return show(self)
 
 
